@@ -363,7 +363,11 @@ def step (d : DState) (line : String) : DState × String :=
     | some (_, _, sk), some l, some u, some p, some b =>
       let prog : TaskProg := { skel := sk, clip := if space == "h" then Opy.Gen.hyperClip else Opy.Gen.searchClip,
                                sweep := if swarm == "1" then Opy.Gen.psoSweep else Opy.Gen.genericSweep }
-      ({ d with task := some (prog, l, u, TaskSt.start p b), script := #[], tbl := [] }, "ok")
+      -- a part the translator could not read as a skeleton / clip loop / plain sweep has no meaning to replay (its own
+      -- regenerated obligation is what reports that)
+      if Good true prog.skel && prog.clip.wellFormed && prog.sweep.plain then
+        ({ d with task := some (prog, l, u, TaskSt.start p b), script := #[], tbl := [] }, "ok")
+      else (d, "unreadable")
     | _, _, _, _, _ => (d, "bad-op")
   | ["tk.step", "="] => ({ d with script := d.script.push none }, "ok")
   | ["tk.step", pop, best] =>
